@@ -124,6 +124,7 @@ func recvWithin(s *Sess, d time.Duration) wamp.Message {
 func runC09(c *Ctx) {
 	g := c.Gen
 	ks := &c09KS{users: map[string]*c09User{}}
+	roleless := g.Chance(1, 3)
 	for _, name := range []string{"alice", "bob"} {
 		pub, priv, err := sign.GenerateKey(rand.Reader)
 		if err != nil {
@@ -133,6 +134,11 @@ func runC09(c *Ctx) {
 		u := &c09User{name: name, role: map[string]string{"alice": "admin", "bob": "user"}[name], ticket: "tkt-" + name, pw: "pw-" + name, pub: pub, priv: priv}
 		if name == "alice" {
 			u.salt, u.iters, u.keylen = "salt1", 7, 16
+		}
+		if name == "bob" && roleless {
+			// a user the key store knows no role for: the authenticator assigns the empty
+			// role, and that - not whatever the client wrote into HELLO - is the session's role
+			u.role = ""
 		}
 		ks.users[name] = u
 	}
